@@ -16,7 +16,7 @@ from ..jsonval import enc, dec
 ID = "C17"
 LEVEL = "exploration"
 RULE = (
-    "Hypothesis-generated values: str (empty, non-ASCII, astral, CR/LF mixes, up to 1 MiB), bytes, bytearray, None, picklable "
+    "Hypothesis-generated values: str (empty, non-ASCII, astral, CR/LF mixes, up to 1 MiB), bytes, bytearray, subclasses of str / bytes carrying state of their own, None, picklable "
     "objects, pandas frames (int/float/bool/str columns, default or labelled/named index), instances of a class with a "
     "registered file codec and of a class with a registered generic codec; registrations drawn from {codec for another type, "
     "second codec for the same type under another reference, codec taking over str for new writes, subclass of the builtin "
@@ -76,6 +76,8 @@ def value_strategy():
         st.integers(0, 7).flatmap(lambda i: big if i == 0 else texts).map(lambda s: {"k": "str", "v": s}),
         blobs.map(lambda b: {"k": "bytes", "v": enc(b)}),
         blobs.map(lambda b: {"k": "bytearray", "v": enc(b)}),
+        st.tuples(st.text(max_size=6), st.integers(0, 3)).map(lambda t: {"k": "strsub", "v": t[0], "tag": t[1]}),
+        st.tuples(st.binary(max_size=6), st.integers(0, 3)).map(lambda t: {"k": "bytessub", "v": enc(t[0]), "tag": t[1]}),
         st.just({"k": "none"}),
         picklable.map(lambda v: {"k": "pickle", "v": enc(v)}),
         frame.map(lambda f: {"k": "frame", "v": f}),
@@ -137,6 +139,14 @@ def build_value(spec):
         return None
     if k == "pickle":
         return dec(spec["v"])
+    if k == "strsub":
+        from ..harness.c17_helpers import TaggedStr
+
+        return TaggedStr(spec["v"], spec["tag"])
+    if k == "bytessub":
+        from ..harness.c17_helpers import TaggedBytes
+
+        return TaggedBytes(bytes(dec(spec["v"])), spec["tag"])
     if k == "moon":
         return Moon(spec["n"])
     if k == "sun":
@@ -173,7 +183,7 @@ def same(a, b):
         pass
     if isinstance(b, bytearray):
         return isinstance(a, (bytes, bytearray)) and bytes(a) == bytes(b)
-    return type(a) == type(b) and a == b
+    return type(a) == type(b) and a == b and getattr(a, "tag", None) == getattr(b, "tag", None)
 
 
 def short(v):
